@@ -15,6 +15,7 @@ using namespace ck;
 namespace sfs = std::filesystem;
 
 static std::string g_scratch;
+static bool g_prune = false; // thorough tier: prune mode (manual pruning is part of the workload)
 
 static NodeOpts DiskOpts(const std::string& datadir)
 {
@@ -23,6 +24,7 @@ static NodeOpts DiskOpts(const std::string& datadir)
     o.coins_db_in_memory = false;
     o.block_tree_db_in_memory = false;
     o.extra_args = {"-fastprune", "-checkblocks=0", "-checklevel=3"};
+    if (g_prune) o.extra_args.push_back("-prune=1");
     o.chainman_tweak = [](ChainstateManager::Options& c) { c.coins_view.batch_write_bytes = 300; };
     o.load_chainstate = false;
     return o;
@@ -30,10 +32,11 @@ static NodeOpts DiskOpts(const std::string& datadir)
 
 // ------------------------------------------------------------------------------------------- workload (recorder child)
 struct Workload {
-    Node& n;
+    Node* np;
+#define n (*np)
     RefLedger L;
     std::vector<CBlock> blocks;
-    explicit Workload(Node& node) : n(node) { L.AddGenesis(Params().GenesisBlock()); }
+    explicit Workload(Node& node) : np(&node) { L.AddGenesis(Params().GenesisBlock()); }
     std::vector<std::pair<COutPoint, RefCoin>> Coins(const uint256& parent)
     {
         std::vector<std::pair<COutPoint, RefCoin>> v;
@@ -47,7 +50,7 @@ struct Workload {
         std::sort(v.begin(), v.end(), [](auto& a, auto& b) { return a.second.height != b.second.height ? a.second.height < b.second.height : a.first < b.first; });
         return v;
     }
-    uint256 Deliver(const uint256& parent, int ntx, int nonce)
+    uint256 Deliver(const uint256& parent, int ntx, int nonce, int pad = 0)
     {
         const CBlockIndex* pi = n.index_of(parent);
         auto coins = Coins(parent);
@@ -59,6 +62,7 @@ struct Workload {
         BlockOpts o;
         o.extra_nonce = nonce;
         o.fees = 1000 * (CAmount)txs.size();
+        if (pad) o.extra_coinbase_outputs.push_back({0, CScript() << OP_RETURN << std::vector<unsigned char>(pad, 0x42)}); // bigger blocks: block files roll over
         CBlock b = MakeBlock(n, pi, txs, o);
         L.Add(b);
         blocks.push_back(b);
@@ -73,41 +77,63 @@ struct Workload {
         n.Flush();
         vxc_mark(("FLUSHED " + n.tip()->GetBlockHash().ToString()).c_str());
     }
+#undef n
 };
 
 static int RunRecorder(const std::string& datadir, const std::string& logfile, const std::string& blocksfile, bool big)
 {
     vxc_start(datadir.c_str());
     {
-        Node node(DiskOpts(datadir));
-        std::string err = node.Load(true);
+        auto node = std::make_unique<Node>(DiskOpts(datadir));
+        std::string err = node->Load(true);
         if (!err.empty()) { fprintf(stderr, "recorder: %s\n", err.c_str()); return 2; }
         SetMockTime(Params().GenesisBlock().nTime + 600 * 100000);
-        Workload w(node);
-        // set-up phase: base chain, flushed
-        uint256 tip = node.tip()->GetBlockHash();
-        for (int i = 0; i < 104; i++) tip = w.Deliver(tip, 0, 0);
+        Workload w(*node);
+        // set-up phase: base chain, flushed. Thorough: 330 padded blocks (~20 per 64 KiB block file) so that a
+        // manual prune has whole files to delete.
+        uint256 tip = node->tip()->GetBlockHash();
+        const int base = big ? 330 : 104;
+        for (int i = 0; i < base; i++) tip = w.Deliver(tip, 0, 0, big ? 3000 : 0);
         w.Flush();
         vxc_mark("SETUP-DONE");
         // crash-enumerated phase
-        tip = w.Deliver(tip, 2, 0);                 // 105: spends coinbases 1,2
-        uint256 b105 = tip;
-        tip = w.Deliver(tip, 2, 0);                 // 106
+        tip = w.Deliver(tip, 2, 0);                 // spends the two oldest coinbases
+        uint256 fork = tip;
+        tip = w.Deliver(tip, 2, 0);
         w.Flush();                                  // multi-batch coins flush
-        tip = w.Deliver(tip, 1, 0);                 // 107
-        uint256 side = w.Deliver(b105, 1, 7);       // 106' side branch (no reorg yet)
-        side = w.Deliver(side, 2, 7);               // 107' equal work
-        side = w.Deliver(side, 0, 7);               // 108' -> reorg of depth 2
+        tip = w.Deliver(tip, 1, 0);
+        uint256 side = w.Deliver(fork, 1, 7);       // side branch (no reorg yet)
+        side = w.Deliver(side, 2, 7);               // equal work
+        side = w.Deliver(side, 0, 7);               // -> reorg of depth 2
         w.Flush();
         if (big) {
             tip = side;
             tip = w.Deliver(tip, 3, 0);
             tip = w.Deliver(tip, 2, 0);
-            node.Invalidate(tip);                   // disconnect one block
-            vxc_mark(("DELIVERED invalidate tip " + node.tip()->GetBlockHash().ToString()).c_str());
+            node->Invalidate(tip);                  // disconnect one block
+            vxc_mark(("DELIVERED invalidate tip " + node->tip()->GetBlockHash().ToString()).c_str());
             w.Flush();
-            node.Reconsider(tip);
-            vxc_mark(("DELIVERED reconsider tip " + node.tip()->GetBlockHash().ToString()).c_str());
+            node->Reconsider(tip);
+            vxc_mark(("DELIVERED reconsider tip " + node->tip()->GetBlockHash().ToString()).c_str());
+            tip = w.Deliver(tip, 2, 0);
+            // restart in the middle (clean stop without a final flush of the last block), so that crash states of a
+            // node that itself started from a recovered directory are covered
+            vxc_mark("RESTART-BEGIN");
+            node.reset();
+            node = std::make_unique<Node>(DiskOpts(datadir));
+            err = node->Load(true);
+            if (!err.empty()) { fprintf(stderr, "recorder restart: %s\n", err.c_str()); return 2; }
+            SetMockTime(Params().GenesisBlock().nTime + 600 * 100000);
+            w.np = node.get();
+            vxc_mark("RESTART-END");
+            tip = node->tip()->GetBlockHash();
+            tip = w.Deliver(tip, 1, 0);
+            // manual prune: deletes the first block/undo files (heights well below tip - 288)
+            {
+                LOCK(cs_main);
+            }
+            PruneBlockFilesManual(node->cs(), 40);
+            vxc_mark(("FLUSHED " + node->tip()->GetBlockHash().ToString()).c_str()); // the prune pass ends with a full flush
             tip = w.Deliver(tip, 2, 0);
             w.Flush();
         }
@@ -173,6 +199,7 @@ int main(int argc, char** argv)
     vx::init(argc, argv, "C16", "fault_enumeration", 170, 1500);
     auto& E = vx::ev();
     bool big = vx::thorough();
+    g_prune = big;
     g_scratch = vx::scratch_dir() + "/C16_" + std::to_string(getpid());
     sfs::remove_all(g_scratch);
     sfs::create_directories(g_scratch);
@@ -225,6 +252,13 @@ int main(int argc, char** argv)
     E.set("writes", (uint64_t)log.count(vxc::WRITE));
     E.set("syncs", (uint64_t)log.count(vxc::FSYNC));
     E.set("renames", (uint64_t)log.count(vxc::RENAME));
+    E.set("unlinks", (uint64_t)log.count(vxc::UNLINK));
+    {
+        size_t blk_unlinks = 0;
+        for (auto& o : log.ops) if (o.kind == vxc::UNLINK && o.path.find("/blk") != std::string::npos) blk_unlinks++;
+        E.set("block_files_pruned", (uint64_t)blk_unlinks);
+        if (big && blk_unlinks == 0) { printf("HARNESS-ERROR property=C16 the thorough workload was meant to prune block files but none was unlinked\n"); sfs::remove_all(g_scratch); return 2; }
+    }
     E.set("crash_states_enumerated", (uint64_t)states.size());
     // dedupe by content
     std::map<uint64_t, size_t> by_content;
@@ -320,7 +354,7 @@ int main(int argc, char** argv)
     E.exhaustive = !stopped_early;
     E.rule = "crash states = every prefix of the op log after set-up (process kill; + torn variants of a trailing write: 1, n/2, n-1 bytes) and every (cut j, crash point k) state where ops[0..j) plus the ops of [j,k) made durable by a sync before k survive (power loss, ordered suffix loss); deduplicated by the bytes of the materialised tree; each recovered by the real LoadChainstate + VerifyLoadedChainstate + ActivateBestChain in a fresh process. distinct_nontrivial = distinct (recovered tip, resumed tip) outcomes";
     E.assume("durability model: a write is durable once its file was fsync'ed afterwards; create/rename once the file or its directory was synced; no reordering inside the ordered op log beyond suffix loss");
-    E.assume("workload: 104-block base + blocks with transactions, forced flushes with 300-byte coins-DB batches, a depth-2 reorg" + std::string(big ? ", invalidate/reconsider, further blocks" : ""));
+    E.assume("workload: 104-block base + blocks with transactions, forced flushes with 300-byte coins-DB batches, a depth-2 reorg" + std::string(big ? ", invalidate/reconsider, a restart in the middle, a manual prune deleting block files, further blocks (330-block padded base, prune mode)" : ""));
     sfs::remove_all(g_scratch);
     if (outcomes.size() < 2 && done > 10) { printf("HARNESS-ERROR property=C16 vacuous: all recoveries produced the same outcome\n"); }
     return vx::finish();
